@@ -6,8 +6,8 @@ import (
 	"strings"
 
 	"github.com/RoaringBitmap/roaring"
-	ice "github.com/blugelabs/ice/v2"
 	segment "github.com/blugelabs/bluge_segment_api"
+	ice "github.com/blugelabs/ice/v2"
 
 	"verifharness/explore"
 	"verifharness/gen"
